@@ -46,6 +46,8 @@ def term(t, env, world):
         return term(t[1], env, world)[t[2]]
     if k == "call":
         return getattr(term(t[1], env, world), t[2])(*t[3])
+    if k == "idxv":  # an index whose key is a term
+        return term(t[1], env, world)[term(t[2], env, world)]
     if k == "callv":  # a call whose arguments are terms
         return getattr(term(t[1], env, world), t[2])(*[term(a, env, world) for a in t[3]])
     if k == "lit":
@@ -142,6 +144,8 @@ def term_vars(t):
         return {t[1]}
     if t[0] in ("attr", "idx", "call"):
         return term_vars(t[1])
+    if t[0] == "idxv":
+        return term_vars(t[1]) | term_vars(t[2])
     if t[0] == "callv":
         out = term_vars(t[1])
         for a in t[3]:
@@ -196,6 +200,8 @@ def show_term(t):
         return f"{show_term(t[1])}[{t[2]!r}]"
     if k == "call":
         return f"{show_term(t[1])}.{t[2]}({', '.join(map(repr, t[3]))})"
+    if k == "idxv":
+        return f"{show_term(t[1])}[{show_term(t[2])}]"
     if k == "callv":
         return f"{show_term(t[1])}.{t[2]}({', '.join(map(show_term, t[3]))})"
     if k == "lit":
